@@ -38,13 +38,17 @@ CONSTANTS
     PertKinds,   \* subset of {"none", "extent", "scale", "shift0"}
     NumSyss,     \* subset of {"Lin", "Log", "Square", "LinRel", "LinTanh"}
     RrefFlags,   \* set of <<rref_equil, rref_preserv>>
+    Options,     \* set of <<backend, new_eq_params, order, species form>>: how the residual object is
+                 \* built and called - backend "sympy" (exact parameters) / "numpy" / "math" (floats);
+                 \* constants passed in params (TRUE) or taken from the system (FALSE); species in pool
+                 \* order "asc" or reversed "rev"; species given by "comp"osition or by "formula"
     MaxEvals     \* number of evaluations of one residual object (1 = no history)
 
 VARIABLES phase, sys, ceq, K, xi, cinit, pert, c, cfg, expd, hist
 vars == <<phase, sys, ceq, K, xi, cinit, pert, c, cfg, expd, hist>>
 
 NoPert == [kind |-> "unset", i |-> 0, a |-> QZero]
-NoCfg == [ns |-> "", re |-> FALSE, rp |-> FALSE]
+NoCfg == [ns |-> "", re |-> FALSE, rp |-> FALSE, opt |-> <<"", TRUE, "", "">>]
 NS == Len(sys.ss)
 NR == Len(sys.rs)
 
@@ -59,6 +63,8 @@ Judge(st, ini) ==
         ateq == \A i \in 1..NR : QEq(q[i], K[i])
         keeps == \A i \in 1..Len(sys.B) : QEq(totc[i], tot0[i])
     IN  [ateq |-> ateq, keeps |-> keeps, zero |-> ateq /\ keeps, q |-> q, totc |-> totc, tot0 |-> tot0]
+\* the constants the system object itself carries: those of the first evaluation
+SystemK == IF hist = <<>> THEN K ELSE hist[1].K
 NoExp == [ateq |-> FALSE, keeps |-> FALSE, zero |-> FALSE, q |-> <<>>, totc |-> <<>>, tot0 |-> <<>>]
 \* margins by which a judged state misses a quotient (relative) / a total (absolute)
 QuotientOff == \E i \in 1..NR : QLe(Hundredth, QAbsDiff(QDiv(expd.q[i], K[i]), QOne))
@@ -128,10 +134,11 @@ BreakConservation(j, d) ==
     /\ LET ini == [cinit EXCEPT ![j] = QAdd(cinit[j], d)]
        IN  ini[j][1] >= 0 /\ Hand(ceq, ini, [kind |-> "shift0", i |-> j, a |-> Norm(d)])
 
-Residual(ns, re, rp) ==
+Residual(ns, re, rp, opt) ==
     /\ phase = "cfg"
-    /\ hist = <<>> \/ (ns = cfg.ns /\ re = cfg.re /\ rp = cfg.rp)   \* a re-used object keeps its formulation
-    /\ cfg' = [ns |-> ns, re |-> re, rp |-> rp] /\ phase' = "done"
+    \* a re-used object keeps its formulation and options
+    /\ hist = <<>> \/ (ns = cfg.ns /\ re = cfg.re /\ rp = cfg.rp /\ opt = cfg.opt)
+    /\ cfg' = [ns |-> ns, re |-> re, rp |-> rp, opt |-> opt] /\ phase' = "done"
     /\ UNCHANGED <<sys, ceq, K, xi, cinit, pert, c, expd, hist>>
 
 \* the evaluation just made, as it goes into the history
@@ -141,6 +148,7 @@ Evaluation == [K |-> K, c |-> c, c0 |-> cinit, pert |-> pert, zero |-> expd.zero
 \* the same residual object (same system, same formulation) is evaluated again with new parameters
 Again ==
     /\ phase = "done" /\ Len(hist) + 1 < MaxEvals
+    /\ cfg.opt[2]          \* other constants can only be handed over when they travel in params
     /\ hist' = Append(hist, Evaluation)
     /\ ceq' = <<>> /\ K' = <<>> /\ xi' = <<>> /\ cinit' = <<>> /\ pert' = NoPert /\ c' = <<>> /\ expd' = NoExp
     /\ phase' = "state"
@@ -148,7 +156,7 @@ Again ==
 
 ------------------------------------------------------------------------------
 (* generators over the configured constants *)
-GenSystem == \E S \in SUBSET RxnIds : Cardinality(S) \in 1..MaxRxns /\ ChooseSystem(S)
+GenSystem == phase = "sys" /\ \E k \in 1..MaxRxns : \E S \in kSubset(k, RxnIds) : ChooseSystem(S)
 GenConc == "full" \in StateModes /\ \E i \in 1..Len(GridSeq) : SetConc(GridSeq[i])
 GenPattern == "pattern" \in StateModes /\ \E p \in Patterns : SetPattern(p[1], p[2])
 GenExtent == \E x \in Extents : SetExtent(x)
@@ -156,7 +164,7 @@ GenNoPerturb == "none" \in PertKinds /\ NoPerturb
 GenBreakQuotient == "extent" \in PertKinds /\ \E i \in 1..NR, d \in Deltas : BreakQuotient(i, d)
 GenScale == "scale" \in PertKinds /\ \E j \in 1..NS, f \in Factors : ScaleSpecies(j, f)
 GenBreakConservation == "shift0" \in PertKinds /\ \E j \in 1..NS, d \in Shifts : BreakConservation(j, d)
-GenResidual == \E ns \in NumSyss, fl \in RrefFlags : Residual(ns, fl[1], fl[2])
+GenResidual == \E ns \in NumSyss, fl \in RrefFlags, o \in Options : Residual(ns, fl[1], fl[2], o)
 
 Next ==
     \/ GenSystem \/ GenConc \/ GenPattern \/ GenExtent
@@ -221,7 +229,7 @@ CaseIn ==
      xi      |-> xi,
      pert    |-> pert,
      hist    |-> hist,
-     ns      |-> cfg.ns, re |-> cfg.re, rp |-> cfg.rp]
+     ns      |-> cfg.ns, re |-> cfg.re, rp |-> cfg.rp, opt |-> cfg.opt]
 
 CaseExp ==
     [zero  |-> expd.zero, ateq |-> expd.ateq, keeps |-> expd.keeps,
@@ -230,11 +238,15 @@ CaseExp ==
      keys  |-> sys.ks,
      totc  |-> expd.totc,
      tot0  |-> expd.tot0,
+     \* argument forms of the public helpers: two states stacked (c, ceq) -> quotients (q, K);
+     \* stoichs_constants without row reduction returns (nu, K); eq_constants() the system's own K
+     qceq  |-> K, totceq |-> [i \in 1..Len(sys.B) |-> Total(sys.B[i], ceq)], sysK |-> SystemK,
      \* |f_i| < 10^-tolz for all i  <=> "zero";  some |f_i| > 10^-tolnz <=> "nonzero"
      tolz  |-> 10, tolnz |-> 6]
 
 CaseRec == [in |-> CaseIn, exp |-> CaseExp,
             cls |-> cfg.ns \o (IF cfg.re THEN "-re" ELSE "") \o (IF cfg.rp THEN "-rp" ELSE "") \o "-" \o pert.kind
+                    \o "-" \o cfg.opt[1] \o (IF cfg.opt[2] THEN "" ELSE "-ownK") \o "-" \o cfg.opt[3] \o "-" \o cfg.opt[4]
                     \o (IF hist = <<>> THEN "" ELSE "-again")]
 Emit == Done => PrintT(<<"CASE", ToJson(CaseRec)>>)
 =============================================================================
